@@ -136,6 +136,25 @@ func checkC14(c *Ctx) {
 		for _, w := range c.fieldWrites(fld) {
 			fnm := fnName(w.fn)
 			if why, ok := allowed[fnm]; ok {
+				if fnm == "MakeHash" && w.kind == "store" {
+					// the constructor may only start the three pieces off empty; the pairs go in through HashSet
+					st, _ := w.in.(*ssa.Store)
+					empty := false
+					if st != nil {
+						switch v := st.Val.(type) {
+						case *ssa.Const:
+							empty = v.Value == nil || v.Value.String() == "0"
+						case *ssa.MakeMap, *ssa.MakeSlice:
+							empty = true
+						case *ssa.Slice:
+							_, empty = v.X.(*ssa.Alloc) // []T{} literal
+						}
+					}
+					c.check(empty, "C14-WM", fnm, w.kind+" "+fld.Name()+" (initial value)", w.in.Pos(),
+						"the constructor starts "+fld.Name()+" off empty and adds its pairs through HashSet",
+						"the constructor writes "+fld.Name()+" with something other than its empty value: the count (or order, or buckets) no longer comes from HashSet, so a constructor call that repeats a key leaves count, order list and buckets in disagreement")
+					continue
+				}
 				if fnm == "SetHashKeyOrder" && fld != KeyOrder {
 					c.bad("C14-WM", fnm, w.kind+" "+fld.Name(), w.in.Pos(), "the reorder routine must only touch the order list")
 					continue
